@@ -98,8 +98,8 @@ Definition C14_balanced_statement : Prop := forall ix0 progs sched, clean ix0 ->
   let s := reach ix0 progs sched in
   all_finished s = true -> forall p td, get (s_ix s) p = Some td -> t_readers td = 0%Z /\ t_excl td = false.
 
-(* it is false of the code as it is (gj_releases_failed = false, model/TIndex.v): GetJournals whose
-   first journal fails to open leaves readers = 1 for ever.  (The proof script is written so that
+(* it was false of the code before the fix f6a6360 (gj_releases_failed = false, model/TIndex.v): GetJournals whose
+   first journal fails to open left readers = 1 for ever.  (The proof script is written so that
    it also compiles when the switch is flipped after the repair.) *)
 Theorem C14_balanced_refuted : gj_releases_failed = false -> ~ C14_balanced_statement.
 Proof.
@@ -140,15 +140,16 @@ Proof.
 Qed.
 Print Assumptions C14_balanced_partial.
 
-(* ... and for the repaired GetJournals (switch flipped) the full statement holds *)
-Theorem C14_balanced_repaired : gj_releases_failed = true -> C14_balanced_statement.
+(* ... and for the code as it is (GetJournals releases the journal it could not open: the switch
+   gj_releases_failed of model/TIndex.v, which K runs the model with) the full statement holds *)
+Theorem C14_balanced : C14_balanced_statement.
 Proof.
-  intros Hf ix0 progs sched C s F p td G.
+  intros ix0 progs sched C s F p td G.
   assert (Q : forall pr, In pr progs -> forallb quiet_proc pr = true).
-  { intros pr _. apply forallb_forall. intros q _. unfold quiet_proc. rewrite Hf. reflexivity. }
+  { intros pr _. apply forallb_forall. intros q _. unfold quiet_proc. reflexivity. }
   exact (C14_balanced_partial ix0 progs sched C Q F p td G).
 Qed.
-Print Assumptions C14_balanced_repaired.
+Print Assumptions C14_balanced.
 
 (* no deadlock: in every reachable state in which somebody has not finished, some actor can take
    a step that is not a retry (in particular: never is every unfinished actor spinning) *)
